@@ -54,39 +54,42 @@ class Ctl:
         return sorted(n for n, s in self.state.items() if s == "ready")
 
     def _pick(self):
-        """Choose who runs next (caller holds cv)."""
+        """Choose who runs next (caller holds cv).
+
+        Candidates: the enabled threads, then the threads blocked in a call *with a timeout* (choosing one of those means
+        "its timeout fires now": the peer may be arbitrarily slow, so this is a legitimate interleaving).  The default choice
+        (index 0) keeps the current thread running, else the first enabled thread; a timeout fires by default only when
+        nothing else can run.
+        """
         self.points += 1
-        en = self._enabled()
-        if not en:
-            waiting_to = sorted(n for n, s in self.state.items() if isinstance(s, tuple) and s[2])
-            if waiting_to:  # a blocked-with-timeout thread times out
-                n = waiting_to[0]
-                self.state[n] = "ready"
-                self.timed_out.add(n)
-                en = [n]
-            elif any(s != "done" for s in self.state.values()):
+        ready = self._enabled()
+        timed = sorted(n for n, s in self.state.items() if isinstance(s, tuple) and s[2])
+        cur = self.me()
+        cur_enabled = cur in ready
+        order = ([cur] if cur_enabled else []) + [r for r in ready if r != cur] + [("timeout", n) for n in timed]
+        if not order:
+            if any(s != "done" for s in self.state.values()):
                 self.deadlock = True
                 self.deadlock_state = {n: (s if isinstance(s, str) else list(s[:2])) for n, s in self.state.items()}
                 self.current = "DEADLOCK"
-                self.cv.notify_all()
-                return
             else:
                 self.current = None
-                self.cv.notify_all()
-                return
-        cur = self.me()
-        cur_enabled = cur in en
-        if cur_enabled:
-            en.remove(cur)
-            en.insert(0, cur)
-        if len(en) == 1:
+            self.cv.notify_all()
+            return
+        if len(order) == 1:
             idx = 0
         else:
             k = len(self.trace)
             idx = self.prefix[k] if k < len(self.prefix) else 0
-            idx = idx if idx < len(en) else 0
-            self.trace.append((len(en), idx, cur_enabled))
-        self.current = en[idx]
+            idx = idx if idx < len(order) else 0
+            self.trace.append((len(order), idx, cur_enabled or bool(ready)))
+        pick = order[idx]
+        if isinstance(pick, tuple):
+            n = pick[1]
+            self.state[n] = "ready"
+            self.timed_out.add(n)
+            pick = n
+        self.current = pick
         self.cv.notify_all()
 
     def _wait_turn(self, name):
